@@ -27,15 +27,17 @@ import (
 
 // bprog is one part-B program together with its invocation.
 type bprog struct {
-	Gen   string            `json:"gen"`
-	Mode  string            `json:"mode"` // call | create | tokencall
-	Code  string            `json:"code"` // hex
-	Extra map[string]string `json:"extra,omitempty"`
-	Input string            `json:"input,omitempty"`
-	Gas   uint64            `json:"gas"`
-	Value string            `json:"value"`               // "0" | "1" | ">balance"
-	Cap   bool              `json:"cap"`                 // the processor-time cap applies (gas <= 10^7)
-	Self  bool              `json:"selfcheck,omitempty"` // the program stores 1 at slot 0xbad when a failed value call changed its balance
+	Gen    string            `json:"gen"`
+	Mode   string            `json:"mode"` // call | create | tokencall
+	Code   string            `json:"code"` // hex
+	Extra  map[string]string `json:"extra,omitempty"`
+	Input  string            `json:"input,omitempty"`
+	Gas    uint64            `json:"gas"`
+	Value  string            `json:"value"`               // "0" | "1" | ">balance"
+	Cap    bool              `json:"cap"`                 // the processor-time cap applies (gas <= 10^7)
+	Self   bool              `json:"selfcheck,omitempty"` // the program stores 1 at slot 0xbad when a failed value call changed its balance
+	Twin   bool              `json:"twin,omitempty"`      // the program's only state-touching op is one call to Target whose flag it returns (frontier.go)
+	Target string            `json:"target,omitempty"`    // hex address
 
 	code  []byte
 	extra map[common.Address][]byte
@@ -673,6 +675,11 @@ func (p *bprog) checkGeneric(deep bool) (*mismatch, int, bool, error) {
 	if r1.o.left > p.Gas {
 		return &mismatch{"gas-bound", fmt.Sprintf("left-over gas %d exceeds the gas limit %d", r1.o.left, p.Gas)}, evals, nontrivial, nil
 	}
+	// what the transaction gets back is the left-over gas plus the transfer fees the EVM
+	// declares refundable (app/state_transition.go: tx.Gas += vm.RefundFee() / RefundAllFee())
+	if hb := r1.o.handedBack(); hb > p.Gas || hb < r1.o.left {
+		return &mismatch{"gas-bound", fmt.Sprintf("left-over gas %d + refundable transfer fees %d exceed the gas limit %d (error: %v)", r1.o.left, r1.o.refund, p.Gas, r1.o.err)}, evals, nontrivial, nil
+	}
 	if r1.o.err != nil {
 		st0, _, err := newState(p.accounts(), false)
 		if err != nil {
@@ -694,6 +701,12 @@ func (p *bprog) checkGeneric(deep bool) (*mismatch, int, bool, error) {
 				return &mismatch{"value-stays", fmt.Sprintf("contract %x observed that a value call it made failed and yet its balance changed", a[:4])}, evals, nontrivial, nil
 			}
 		}
+	}
+	if m := p.checkTwin(r1, st1.Exist); m != nil {
+		if m.obs == "binding" {
+			return nil, evals, nontrivial, fmt.Errorf("%s", m.text)
+		}
+		return m, evals, nontrivial, nil
 	}
 	r2, _, err := p.runOnce(false)
 	evals++
@@ -856,7 +869,7 @@ func nthProgram(seed int64, j job, i int, lines []string, dirs []directed) (*bpr
 		p.extra = map[common.Address][]byte{}
 		var frames []*frameNode
 		walk(root, func(f *frameNode, n *opNode) {
-			if n.Op == "call" {
+			if n.Op == "call" && n.child != nil {
 				p.extra[childAddr(n.ID)] = n.child.code
 				frames = append(frames, n.child)
 			}
@@ -905,6 +918,14 @@ func childB(c *core.Ctx, j job) {
 		}
 	}
 	dirs := allDirected()
+	var front []*bprog
+	if j.Front {
+		all := frontierPrograms(c.Seed, c.Thorough())
+		for k := j.Idx - 100; k < len(all); k += j.Insts {
+			front = append(front, all[k])
+		}
+		j.N = len(front)
+	}
 	res := jobResult{ByClass: map[string]int{}}
 	seen := map[string]bool{}
 	distinct := map[[32]byte]bool{}
@@ -930,6 +951,8 @@ func childB(c *core.Ctx, j job) {
 		var err error
 		if j.One != nil {
 			p, err = j.One, j.One.decode()
+		} else if j.Front {
+			p = front[i]
 		} else {
 			p, err = nthProgram(c.Seed, j, i, lines, dirs)
 		}
@@ -999,6 +1022,7 @@ func partB(c *core.Ctx, base string, pl *pool) {
 	for w := 0; w < workers; w++ {
 		pl.submit(job{Part: "B", File: file, Idx: w, N: total / workers, Deep: 4, Insts: workers}, c.MinutesT(5, 25))
 	}
+	partF(c, pl)
 	c.SetExtra("partB_directed_programs", len(allDirected()))
 	c.SetExtra("partB_cpu_time_cap_per_invocation_s", cpuCap.Seconds())
 }
